@@ -143,7 +143,9 @@ def handleS (depth : Nat) (cfg : String) (rootsTok : String) (nodeToks : List St
   | some roots, some nodes =>
     let h : Heap := number nodes 0
     let base := h.length
-    let spec := "ok:" ++ observe 0 h roots ++ ":ov0:u1:" ++ cfg
+    -- the theorems' hypotheses (SourceHeap, GlobalProtoOK) are validated on every dump
+    let spec := if checkSource h base roots && checkGlobalProto h roots
+      then "ok:" ++ observe 0 h roots ++ ":ov0:u1:" ++ cfg else "bad-hypothesis"
     let model := match copyChain depth 0 h base roots with
       | .ok (h', roots', r', lastBase) => "ok:" ++ observe r' h' roots' ++ ":ov" ++ toString (overlap h' roots' lastBase) ++ ":u1:" ++ cfg
       | .panic => "panic"
